@@ -26,6 +26,9 @@ import Ark.Model.Proto
              map", the doc comments of `SWUConfig` / `Elligator2Config`): a configuration that violates one and is accepted
              gives `note:check_parameters accepted an invalid configuration (…)` (the property C13 as registered does not
              cover `check_parameters`; the finding is reported separately).  The maps on such configurations: `note:`.
+    xshipped (extra stream `c13x` over the curve crates, harness2/src/bin/c13x.rs; all other lines of that stream use the ops
+             above with ids `g1`, `g1iso`, `g2`, `g2iso` (ark_bls12_381), `b377*` (ark_bls12_377), `band` (Bandersnatch)):
+             a configuration shipped by a curve crate that violates a condition is `bad`, not a note.
 -/
 namespace Ark.DrvC13
 open Ark Ark.Proto Ark.H2C
@@ -491,6 +494,24 @@ def run (cache : Cache) (op : String) (args : List String) (impl : String) : Opt
         some (cache.markInv id newViol, ms, chkVerdict "check_parameters" viol impl)
       | _ => none
     | _ => none
+  -- extra stream `c13x` (curve crates, harness2/src/bin/c13x.rs): `xshipped <id>` follows the header lines of a configuration
+  -- SHIPPED by a curve crate; impl = `check_parameters()` once more.  Such a configuration must satisfy every condition
+  -- (for the toy configurations of the primary stream a violated condition only turns the later verdicts into notes):
+  -- SWU parameters incl. RFC 9380 §6.6.2 criterion 4, the isogeny maps the generator of the isogenous curve onto the
+  -- codomain, the Elligator 2 constants are consistent with the Montgomery / twisted Edwards coefficients.
+  | "xshipped", [id] =>
+    let g ← cache.find id
+    let swWhy (sid : String) : List String := match cache.find sid with
+      | some (.sw _ _ _ _ _ _ _ _ valid) =>
+        if valid then [] else [sid ++ ": invalid SWU parameters (ZETA a square, a·b = 0, or g(B/(ZETA·A)) not a non-zero square)"]
+      | _ => [sid ++ ": not a SWU configuration"]
+    let why : List String := (match cache.invOf id with | some w => [w] | none => [])
+      ++ (match g with
+          | .sw .. => swWhy id
+          | .wb swid .. => swWhy swid
+          | .ell .. => [])
+    out "ok" (if impl != "ok" then "bad:check_parameters rejected a shipped configuration: " ++ impl
+              else if why.isEmpty then "ok" else "bad:shipped configuration is invalid: " ++ joinWith "; " why)
   | "new", [id] =>
     -- `new` = `#[cfg(test)] M2C::check_parameters()?; Ok(Self {..})`: outside ark-ec's own unit tests the call is compiled out
     let _ ← cache.find id
